@@ -213,6 +213,15 @@ func c01One(c *vk.Ctx, prop string, e reg.Entry, idx []int, id string) uint64 {
 					return
 				}
 			}
+			// (a++) a target with a history: the same typed target first receives another block of
+			// the same composition, then this one (DecodeBlock resets its targets), then a
+			// zero-row block of the same column: each time it must hold exactly that block
+			if rev == c01Revs[0] && len(idx) > 0 {
+				if msg := history01(e, idx, rev, plain, want); msg != "" {
+					fail("target-with-history", msg)
+					return
+				}
+			}
 			// (a') the same contents as the reference server writes them (for LowCardinality also
 			// with keys wider than the library would choose) must decode to the same values
 			if !noRef(e.Label) && len(idx) > 0 {
@@ -368,6 +377,51 @@ func disturb01(e reg.Entry, idx []int, rev int) string {
 	return ""
 }
 
+// history01 decodes, into ONE typed target: another block of the same composition, then
+// the block under test, then a zero-row block of the same column.
+func history01(e reg.Entry, idx []int, rev int, plain []byte, want []any) string {
+	probe, err := reg.Wrap(e.New(), e.Label)
+	if err != nil {
+		return ""
+	}
+	na := len(probe.Alphabet())
+	other := make([]int, len(idx)+1)
+	for i := range other {
+		other[i] = (i + 1 + idx[0]) % na
+	}
+	c2, _, want2, err := build(e, other)
+	if err != nil {
+		return ""
+	}
+	b2, err := encodeBlock1(c2.C, "col", rev, nil)
+	if err != nil {
+		return ""
+	}
+	empty, _ := reg.Wrap(e.New(), e.Label)
+	b0, err := encodeBlock1(empty.C, "col", rev, nil)
+	if err != nil {
+		return ""
+	}
+	target, _ := reg.Wrap(e.New(), e.Label)
+	res := proto.Results{{Name: "col", Data: target.C}}
+	for step, st := range []struct {
+		b    []byte
+		want []any
+	}{{b2, want2}, {plain, want}, {b0, nil}, {plain, want}} {
+		var db proto.Block
+		if err := db.DecodeBlock(proto.NewReader(bytes.NewReader(st.b)), rev, res); err != nil {
+			return fmt.Sprintf("step %d: %v", step, err)
+		}
+		if target.C.Rows() != len(st.want) {
+			return fmt.Sprintf("step %d: a block of %d rows decoded into a used target leaves %d rows in it", step, len(st.want), target.C.Rows())
+		}
+		if got := rowsCanon(target); !refcol.Equal(anyList(got), anyList(st.want)) && len(st.want) > 0 {
+			return fmt.Sprintf("step %d: used target holds %s, the block holds %s", step, refcol.Show(anyList(got)), refcol.Show(anyList(st.want)))
+		}
+	}
+	return ""
+}
+
 // serverSpellings lists other type strings with the same wire layout as t, as a server
 // spells them: Decimal(P, S) for the fixed-width decimals (both ends of each precision
 // range), explicit time zones for the timestamps.
@@ -423,7 +477,7 @@ func rowsCanonAs(inferred, typed *reg.Col) (out []any) {
 
 // C01 — block encode -> decode is the identity for every column type and nesting.
 func C01(c *vk.Ctx) {
-	c.Rule("every column composition of the generated registry (45 base columns; Array / Nullable / LowCardinality / Map(String,.) / Map(.,String) / Tuple(.,String) wrappers wherever the exported generic constructors type-check, to depth 2) x every value sequence of length <= L (quick 2, thorough 4; 5 for the 45 base columns) over the per-type boundary alphabet (0, +-1, min, max, NaN/Inf/-0/denormal, strings of 0/1/127/128 bytes, nulls, empty and nested arrays, range ends of the date types) x revisions {54460, 54453, 51902} x output buffer {empty, 1 byte, 9 bytes pre-filled}; plus size-triggered cases (LowCardinality dictionaries of 254..257 and 65534..65537 distinct values, strings of 16383 / 16384 / 2^20-1 / 2^20 / 2^20+1 / 2^21-1 / 2^21 bytes in String, Array(String), LowCardinality(String) and Nullable(String), decoded into a fresh and into a used-and-Reset column). Oracles: typed decode into a fresh column, typed decode of the same contents as the reference server writes them (LowCardinality keys of 8, 16 and 64 bits) and as the server spells the type (Decimal(P, S) at both ends of each width's precision range, explicit time zones; typed and inferred targets), decode through Results.Auto where ColAuto.Infer accepts the type, independent reference decode (refcol) with exact consumption, buffer independence, independence from a second object of the same composition and an unrelated column encoded and decoded in between (no hidden shared state), re-encode equality, WriteBlock+Flush = EncodeBlock; the same run in the purego build must produce the same transcript. distinct_nontrivial = (composition, value sequence) cases with at least one row.")
+	c.Rule("every column composition of the generated registry (45 base columns; Array / Nullable / LowCardinality / Map(String,.) / Map(.,String) / Tuple(.,String) wrappers wherever the exported generic constructors type-check, to depth 2) x every value sequence of length <= L (quick 2, thorough 4; 5 for the 45 base columns) over the per-type boundary alphabet (0, +-1, min, max, NaN/Inf/-0/denormal, strings of 0/1/127/128 bytes, nulls, empty and nested arrays, range ends of the date types) x revisions {54460, 54453, 51902} x output buffer {empty, 1 byte, 9 bytes pre-filled}; plus size-triggered cases (LowCardinality dictionaries of 254..257 and 65534..65537 distinct values, strings of 16383 / 16384 / 2^20-1 / 2^20 / 2^20+1 / 2^21-1 / 2^21 bytes in String, Array(String), LowCardinality(String) and Nullable(String), decoded into a fresh and into a used-and-Reset column). Oracles: typed decode into a fresh column and into a target with a history (another block of the composition, then this one, then a zero-row block, then this one again), typed decode of the same contents as the reference server writes them (LowCardinality keys of 8, 16 and 64 bits) and as the server spells the type (Decimal(P, S) at both ends of each width's precision range, explicit time zones; typed and inferred targets), decode through Results.Auto where ColAuto.Infer accepts the type, independent reference decode (refcol) with exact consumption, buffer independence, independence from a second object of the same composition and an unrelated column encoded and decoded in between (no hidden shared state), re-encode equality, WriteBlock+Flush = EncodeBlock; the same run in the purego build must produce the same transcript. distinct_nontrivial = (composition, value sequence) cases with at least one row.")
 	L := 2
 	if !c.Quick() {
 		L = 4
